@@ -1,10 +1,13 @@
 (* Extraction of the executable models (ExtrOcamlBasic only; Z/positive/Q stay Coq datatypes). *)
 From Coq Require Import List Arith ZArith QArith Qcanon.
 From Coq Require Import extraction.ExtrOcamlBasic.
-Require Import PGM.Base.Alg PGM.Base.Sums PGM.Base.Qnn PGM.Model.Domain PGM.Model.Dataset.
+Require Import PGM.Base.Alg PGM.Base.Sums PGM.Base.Qnn PGM.Model.Domain PGM.Model.Dataset PGM.Model.Factor PGM.Model.XQ.
 Extraction Language OCaml.
 Extraction "model.ml"
   QcSR QnnSF Qc_of Qnn_of Qc_num Qc_den qv
   Domain.project Domain.marginalize Domain.invert Domain.axes Domain.merge Domain.contains Domain.size
   Domain.size_of Domain.canonical Domain.sort_size Domain.sort_name Domain.dom_eqb
-  Dataset.datavector Dataset.dproject.
+  Dataset.datavector Dataset.dproject
+  Factor.expand Factor.transpose Factor.fmap Factor.fbin Factor.fibin Factor.fagg Factor.fproject Factor.condition
+  Factor.cv_bin Factor.cv_combine Factor.cv_get Factor.tabulate Factor.tbl_of
+  xadd xsub xmul xdiv xmax xzero xninf.
